@@ -52,7 +52,7 @@ EXCEPTIONS = {n: getattr(__import__('builtins'), n) for n in
                'KeyboardInterrupt', 'ZeroDivisionError', 'UnicodeError', 'AssertionError', 'LookupError']}
 PATHS = {'PurePosixPath': pathlib.PurePosixPath, 'PureWindowsPath': pathlib.PureWindowsPath}
 PYTZ_ZONES = ['Europe/Helsinki', 'America/New_York', 'Asia/Kolkata', 'Australia/Lord_Howe', 'UTC', 'Etc/GMT+5',
-              'Africa/Monrovia', 'Pacific/Apia']
+              'Africa/Monrovia', 'Pacific/Apia', 'Etc/UTC', 'Zulu', 'UCT', 'Etc/Universal', 'GMT', 'Etc/GMT-14', 'Etc/Greenwich']
 
 
 def build_tz(r):
@@ -173,6 +173,9 @@ def std_equal(a, b, same):
         if a == b:
             return None
         # tzinfo classes mostly compare by identity: compare what they do to a datetime carrying them
+        # (named zones must keep their name: pytz.timezone('Etc/UTC') is not pytz.utc)
+        if getattr(a, 'zone', None) is not None and getattr(b, 'zone', None) is not None and a.zone != b.zone:
+            return 'tzinfo differs: %r (zone %r) vs %r (zone %r)' % (a, getattr(a, 'zone', None), b, getattr(b, 'zone', None))
         probe = dt.datetime(2021, 6, 15, 12, 0)
         try:
             pa, pb = probe.replace(tzinfo=a), probe.replace(tzinfo=b)
